@@ -234,6 +234,23 @@ func (c *Ctx) SignIffApproved(prop string, only map[string]bool) {
 							return true
 						}
 					}
+					// table form: `if r, rejected := table[verdict]; rejected { return }` - the miss edge of a lookup in a package-level
+					// map that is only initialised, with constant keys: the verdict is none of the keys
+					if a.Op == "false" {
+						if ex, ok := a.LV.(*ssa.Extract); ok && ex.Index == 1 {
+							if lk, ok := ex.Tuple.(*ssa.Lookup); ok && lk.CommaOk {
+								if idx, ok := verdictLoad(lk.Index, run); ok && ((site.Batch && idx == wantIdx) || (!site.Batch && an.IsConstInt(idx, 0))) {
+									if ld, ok := lk.X.(*ssa.UnOp); ok {
+										if g, ok := ld.X.(*ssa.Global); ok {
+											if keys, ok := c.globalMapConstKeys(g); ok && keys[val] {
+												return true
+											}
+										}
+									}
+								}
+							}
+						}
+					}
 					return false
 				}})
 			if x != nil {
@@ -271,6 +288,173 @@ func (c *Ctx) SignIffApproved(prop string, only map[string]bool) {
 	}
 	c.R.Floor(rule, "signing sites", n, floor)
 	c.EnumClosure(prop, resT)
+}
+
+// globalMapConstKeys: g is a package-level map that is assigned once, in its package's init, a map literal with constant
+// integer keys, and is never modified afterwards (no update, delete or clear through any load of g in the module).
+func (c *Ctx) globalMapConstKeys(g *ssa.Global) (map[int64]bool, bool) {
+	key := "gmapkeys:" + g.String()
+	if v, ok := c.memo[key].(map[int64]bool); ok {
+		return v, v != nil
+	}
+	c.memo[key] = map[int64]bool(nil)
+	if g.Pkg == nil || len(c.globalWrittenOutsideInit(g)) > 0 {
+		return nil, false
+	}
+	ini := g.Pkg.Func("init")
+	if ini == nil {
+		return nil, false
+	}
+	var mk *ssa.MakeMap
+	nst := 0
+	for _, b := range ini.Blocks {
+		for _, ins := range b.Instrs {
+			if st, ok := ins.(*ssa.Store); ok && st.Addr == ssa.Value(g) {
+				nst++
+				mk, _ = st.Val.(*ssa.MakeMap)
+			}
+		}
+	}
+	if nst != 1 || mk == nil {
+		return nil, false
+	}
+	keys := map[int64]bool{}
+	for _, r := range *mk.Referrers() {
+		switch x := r.(type) {
+		case *ssa.MapUpdate:
+			k, ok := x.Key.(*ssa.Const)
+			if !ok {
+				return nil, false
+			}
+			v, exact := constInt64(k)
+			if !exact {
+				return nil, false
+			}
+			keys[v] = true
+		case *ssa.Store, *ssa.DebugRef:
+		default:
+			return nil, false
+		}
+	}
+	// no modification through loads of g anywhere
+	for _, fn := range c.P.ModuleFuncs() {
+		for _, b := range fn.Blocks {
+			for _, ins := range b.Instrs {
+				var m ssa.Value
+				switch x := ins.(type) {
+				case *ssa.MapUpdate:
+					m = x.Map
+				case *ssa.Call:
+					if bi, ok := x.Call.Value.(*ssa.Builtin); ok && (bi.Name() == "delete" || bi.Name() == "clear") {
+						m = x.Call.Args[0]
+					}
+				}
+				if ld, ok := m.(*ssa.UnOp); ok && ld.X == ssa.Value(g) {
+					return nil, false
+				}
+			}
+		}
+	}
+	c.memo[key] = keys
+	return keys, true
+}
+
+// tableFieldConsts: v is field f of the value looked up in a package-level, init-only map with constant keys whose values are
+// struct literals: the set of integer constants that field f holds across the literal's entries.
+func (c *Ctx) tableFieldConsts(v ssa.Value) (map[int64]bool, bool) {
+	var structVal ssa.Value
+	fieldIdx := -1
+	if fld, ok := v.(*ssa.Field); ok {
+		structVal, fieldIdx = fld.X, fld.Field
+	} else if ld, ok := v.(*ssa.UnOp); ok {
+		// the looked-up struct copied into a local first: load of &local.f with local = the lookup's value
+		if fa, ok := ld.X.(*ssa.FieldAddr); ok {
+			if a, ok := fa.X.(*ssa.Alloc); ok {
+				if inner, ok := an.ResolveCell(a); ok {
+					structVal, fieldIdx = inner, fa.Field
+				}
+			}
+		}
+	}
+	if structVal == nil {
+		return nil, false
+	}
+	var lk *ssa.Lookup
+	switch x := structVal.(type) {
+	case *ssa.Extract:
+		lk, _ = x.Tuple.(*ssa.Lookup)
+		if x.Index != 0 {
+			return nil, false
+		}
+	case *ssa.Lookup:
+		lk = x
+	}
+	if lk == nil {
+		return nil, false
+	}
+	ld, ok := lk.X.(*ssa.UnOp)
+	if !ok {
+		return nil, false
+	}
+	g, ok := ld.X.(*ssa.Global)
+	if !ok {
+		return nil, false
+	}
+	if _, ok := c.globalMapConstKeys(g); !ok {
+		return nil, false
+	}
+	ini := g.Pkg.Func("init")
+	var mk *ssa.MakeMap
+	for _, b := range ini.Blocks {
+		for _, ins := range b.Instrs {
+			if st, ok := ins.(*ssa.Store); ok && st.Addr == ssa.Value(g) {
+				mk, _ = st.Val.(*ssa.MakeMap)
+			}
+		}
+	}
+	if mk == nil {
+		return nil, false
+	}
+	out := map[int64]bool{}
+	for _, r := range *mk.Referrers() {
+		mu, ok := r.(*ssa.MapUpdate)
+		if !ok {
+			continue
+		}
+		load, ok := mu.Value.(*ssa.UnOp)
+		if !ok {
+			return nil, false
+		}
+		lit, ok := load.X.(*ssa.Alloc)
+		if !ok {
+			return nil, false
+		}
+		set := false
+		for _, r2 := range *lit.Referrers() {
+			fa, ok := r2.(*ssa.FieldAddr)
+			if !ok || fa.Field != fieldIdx {
+				continue
+			}
+			for _, r3 := range *fa.Referrers() {
+				if st, ok := r3.(*ssa.Store); ok {
+					k, ok := st.Val.(*ssa.Const)
+					if !ok {
+						return nil, false
+					}
+					val, exact := constInt64(k)
+					if !exact {
+						return nil, false
+					}
+					out[val] = true
+					set = true
+				}
+			}
+		}
+		if !set {
+			out[0] = true // the field keeps its zero value in this entry
+		}
+	}
+	return out, len(out) > 0
 }
 
 // EnumClosure: no production code manufactures a value of the enum type other than its declared constants.
@@ -496,6 +680,10 @@ func (c *Ctx) SuccessNeedsEverything(prop string) {
 					continue
 				}
 				if _, isConst := resV.(*ssa.Const); !isConst {
+					// a result read from an init-only table of constants none of which is SUCCEEDED
+					if vals, ok := c.tableFieldConsts(resV); ok && !vals[succ] {
+						continue
+					}
 					// variable result: must be known != Succeeded
 					target := ssa.Instruction(ret)
 					if x, path := an.Cut(an.CutQuery{From: an.Entry(E), Target: func(i ssa.Instruction) bool { return i == target },
